@@ -47,6 +47,9 @@ EndEv == LET e == Log[l] IN
 
 ReturnEv == LET e == Log[l] IN
   /\ e.ev = "return"
+  \* what the population says about itself through the Population trait: as many members as it
+  \* holds, and empty exactly when it holds none (the step makes `size` children)
+  /\ e.size = Len(e.pop_after) /\ e.is_empty = (Len(e.pop_after) = 0)
   /\ IF e.ok THEN CommitAs(e.pop_after)
              ELSE /\ Abort /\ result'.err = e.err_call
                   /\ e.pop_after = pop
